@@ -11,6 +11,7 @@ Variable P : jv -> Prop.
 Hypothesis Hnull : P JNull.
 Hypothesis Hbool : forall b, P (JBool b).
 Hypothesis Hint : forall z, P (JInt z).
+Hypothesis Hfloat : forall t, P (JFloat t).
 Hypothesis Hstr : forall s, P (JStr s).
 Hypothesis Harr : forall l, Forall P l -> P (JArr l).
 Hypothesis Hobj : forall kv, Forall (fun p => P (snd p)) kv -> P (JObj kv).
@@ -19,6 +20,7 @@ Fixpoint jv_ind' (v : jv) : P v :=
   | JNull => Hnull
   | JBool b => Hbool b
   | JInt z => Hint z
+  | JFloat t => Hfloat t
   | JStr s => Hstr s
   | JArr l => Harr l ((fix go (l : list jv) : Forall P l :=
                          match l with [] => Forall_nil P | x :: r => Forall_cons x (jv_ind' x) (go r) end) l)
@@ -177,112 +179,184 @@ Proof. intro l. reflexivity. Qed.
 Lemma sz_obj : forall l, sz (JObj l) = S (need_members l).
 Proof. intro l. reflexivity. Qed.
 
-(* the first byte of a serialised value *)
-Definition first_ok (b : N) : Prop :=
-  b = 110%N \/ b = 116%N \/ b = 102%N \/ b = 34%N \/ b = 91%N \/ b = 123%N \/ b = 45%N \/ is_dig b = true.
+(* ---- number tokens ---- *)
 
-Lemma ser_head : forall v, exists b t, ser v = b :: t /\ first_ok b.
+Definition follow_num (rest : list N) : Prop :=
+  match rest with [] => True | b :: _ => is_numch b = false end.
+
+Lemma span_num_app : forall t rest,
+  forallb is_numch t = true -> follow_num rest -> span_num (t ++ rest) = (t, rest).
 Proof.
-  intros [| [|] | z | s | l | kv]; unfold first_ok.
-  - eexists _, _. split; [reflexivity|]. tauto.
-  - eexists _, _. split; [reflexivity|]. tauto.
-  - eexists _, _. split; [reflexivity|]. tauto.
-  - destruct (show_int_head z) as (b & t & E & H). exists b, t. split; [exact E|]. tauto.
-  - eexists _, _. split; [reflexivity|]. tauto.
-  - rewrite ser_arr. eexists _, _. split; [reflexivity|]. tauto.
-  - rewrite ser_obj. eexists _, _. split; [reflexivity|]. tauto.
+  induction t as [|b t IH]; intros rest Ht Hr.
+  - destruct rest as [|c r]; [reflexivity|]. cbn in *. now rewrite Hr.
+  - cbn in Ht. apply andb_true_iff in Ht. destruct Ht as [Hb Ht].
+    cbn [app span_num]. rewrite Hb, (IH rest Ht Hr). reflexivity.
 Qed.
 
-Lemma first_ok_not : forall b, first_ok b -> (b =? 93 = false /\ b =? 125 = false)%N.
+Lemma digits_intch : forall u, forallb is_intch (digits u) = true.
+Proof. induction u; cbn; auto. Qed.
+
+Lemma show_int_intch : forall z, forallb is_intch (show_int z) = true.
+Proof. intro z. unfold show_int. destruct (Z.to_int z); cbn; apply digits_intch. Qed.
+
+Lemma intch_numch : forall b, is_intch b = true -> is_numch b = true.
 Proof.
-  intros b H. unfold first_ok in H. split; apply N.eqb_neq; intro; subst;
-    repeat (destruct H as [H|H]; try discriminate); discriminate.
+  intros b H. unfold is_intch in H. unfold is_numch. apply orb_true_iff in H.
+  destruct H as [H|H]; rewrite H; cbn; rewrite ?orb_true_r; reflexivity.
+Qed.
+
+Lemma forallb_impl : forall (f g : N -> bool) l,
+  (forall x, f x = true -> g x = true) -> forallb f l = true -> forallb g l = true.
+Proof.
+  intros f g l H. induction l as [|x l IH]; cbn; [reflexivity|]. intro E.
+  apply andb_true_iff in E. destruct E as [E1 E2]. now rewrite (H _ E1), IH.
+Qed.
+
+Lemma pnum_show_int : forall z rest, follow_num rest -> pnum (show_int z ++ rest) = Some (JInt z, rest).
+Proof.
+  intros z rest Hr. unfold pnum.
+  rewrite span_num_app; [| apply (forallb_impl is_intch); [apply intch_numch | apply show_int_intch] | exact Hr].
+  destruct (show_int_head z) as (b & t & E & _).
+  rewrite show_int_intch.
+  pose proof (pint_show_int z [] I) as P. rewrite List.app_nil_r in P. rewrite P.
+  rewrite E. reflexivity.
+Qed.
+
+Lemma pnum_float : forall tok rest, float_tok_ok tok = true -> follow_num rest ->
+  pnum (tok ++ rest) = Some (JFloat tok, rest).
+Proof.
+  intros tok rest H Hr. unfold float_tok_ok in H. apply andb_true_iff in H. destruct H as [H1 H2].
+  apply negb_true_iff in H2. unfold pnum. rewrite span_num_app; auto. rewrite H2.
+  destruct tok; [discriminate|reflexivity].
+Qed.
+
+Lemma numch_not_lit : forall b, is_numch b = true ->
+  ((b =? 110) = false /\ (b =? 116) = false /\ (b =? 102) = false /\ (b =? 34) = false /\
+   (b =? 91) = false /\ (b =? 123) = false /\ (b =? 93) = false /\ (b =? 125) = false)%N.
+Proof.
+  intros b H. repeat split; apply N.eqb_neq; intro; subst; discriminate.
+Qed.
+
+Lemma float_tok_head : forall tok, float_tok_ok tok = true -> exists b t, tok = b :: t /\ is_numch b = true.
+Proof.
+  intros [|b t] H; [discriminate|]. unfold float_tok_ok in H. apply andb_true_iff in H.
+  destruct H as [H _]. cbn in H. apply andb_true_iff in H. exists b, t. tauto.
+Qed.
+
+(* the first byte of a serialised value is never a closing bracket *)
+Lemma ser_head : forall v, wf v = true -> exists b t, ser v = b :: t /\ ((b =? 93) = false /\ (b =? 125) = false)%N.
+Proof.
+  intros [| [|] | z | tok | s | l | kv] W.
+  - eexists _, _. split; [reflexivity|]. split; reflexivity.
+  - eexists _, _. split; [reflexivity|]. split; reflexivity.
+  - eexists _, _. split; [reflexivity|]. split; reflexivity.
+  - destruct (show_int_head z) as (b & t & E & H). exists b, t. split; [exact E|].
+    split; apply N.eqb_neq; intro; subst; destruct H as [H|H]; discriminate.
+  - cbn [wf] in W. destruct (float_tok_head tok W) as (b & t & E & H). exists b, t. split; [exact E|].
+    destruct (numch_not_lit b H) as (_ & _ & _ & _ & _ & _ & A & B). auto.
+  - eexists _, _. split; [reflexivity|]. split; reflexivity.
+  - rewrite ser_arr. eexists _, _. split; [reflexivity|]. split; reflexivity.
+  - rewrite ser_obj. eexists _, _. split; [reflexivity|]. split; reflexivity.
 Qed.
 
 (* ---- the round trip, with an arbitrary continuation ---- *)
 
-Lemma pval_ser : forall v rest fuel,
-  follow_ok rest -> sz v < fuel -> pval fuel (ser v ++ rest) = Some (v, rest).
+Lemma pval_ser : forall v, wf v = true -> forall rest fuel,
+  follow_num rest -> sz v < fuel -> pval fuel (ser v ++ rest) = Some (v, rest).
 Proof.
-  induction v as [| b | z | s | l IH | kv IH] using jv_ind'; intros rest fuel Hr Hf;
+  induction v as [| b | z | tok | s | l IH | kv IH] using jv_ind'; intros W rest fuel Hr Hf;
     (destruct fuel as [|f]; [lia|]).
   - reflexivity.
   - destruct b; reflexivity.
   - destruct (show_int_head z) as (b & t & E & Hb).
-    assert ((b =? 110) = false /\ (b =? 116) = false /\ (b =? 102) = false /\ (b =? 34) = false /\
-            (b =? 91) = false /\ (b =? 123) = false)%N as (A1 & A2 & A3 & A4 & A5 & A6).
-    { repeat split; apply N.eqb_neq; intro; subst; destruct Hb as [Hb|Hb]; discriminate. }
+    assert (NB : is_numch b = true).
+    { destruct Hb as [->|Hb]; [reflexivity|]. unfold is_numch. now rewrite Hb. }
+    destruct (numch_not_lit b NB) as (A1 & A2 & A3 & A4 & A5 & A6 & _ & _).
     cbn [ser].
     replace (show_int z ++ rest) with (b :: (t ++ rest)) by (rewrite E; reflexivity).
     cbn [pval]. rewrite A1, A2, A3, A4, A5, A6.
     replace (b :: (t ++ rest)) with (show_int z ++ rest) by (rewrite E; reflexivity).
-    now apply pint_show_int.
+    now apply pnum_show_int.
+  - cbn [wf] in W. destruct (float_tok_head tok W) as (b & t & E & NB).
+    destruct (numch_not_lit b NB) as (A1 & A2 & A3 & A4 & A5 & A6 & _ & _).
+    cbn [ser].
+    replace (tok ++ rest) with (b :: (t ++ rest)) by (rewrite E; reflexivity).
+    cbn [pval]. rewrite A1, A2, A3, A4, A5, A6.
+    replace (b :: (t ++ rest)) with (tok ++ rest) by (rewrite E; reflexivity).
+    now apply pnum_float.
   - destruct (pstr_ser_str s rest) as (t & E & P). cbn [ser]. rewrite E. cbn [pval].
     cbn [N.eqb Pos.eqb]. now rewrite P.
-  - rewrite ser_arr. rewrite sz_arr in Hf.
-    assert (EL : forall l, Forall (fun v => forall rest fuel, follow_ok rest -> sz v < fuel ->
-                   pval fuel (ser v ++ rest) = Some (v, rest)) l ->
+  - rewrite ser_arr. rewrite sz_arr in Hf. cbn [wf] in W.
+    assert (EL : forall l, Forall (fun v => wf v = true -> forall rest fuel, follow_num rest -> sz v < fuel ->
+                   pval fuel (ser v ++ rest) = Some (v, rest)) l -> forallb wf l = true ->
                  l <> [] -> forall rest f, need_elems l < f ->
                  pelems f (ser_elems l ++ 93%N :: rest) = Some (l, rest)).
-    { clear. induction l as [|x r IHr]; intros F NE rest f Hn; [congruence|].
+    { clear. induction l as [|x r IHr]; intros F W NE rest f Hn; [congruence|].
       destruct f as [|f]; [lia|]. inversion F as [|? ? Hx Fr]; subst. cbn [need_elems] in Hn.
+      cbn [forallb] in W. apply andb_true_iff in W. destruct W as [Wx Wr].
       rewrite ser_elems_cons. cbn [pelems].
       destruct r as [|y r'].
-      - rewrite Hx; [|reflexivity|lia]. reflexivity.
-      - rewrite Hx; [|reflexivity|lia]. cbn [N.eqb Pos.eqb].
-        rewrite (IHr Fr); [reflexivity|discriminate|lia]. }
+      - rewrite (Hx Wx); [|reflexivity|lia]. reflexivity.
+      - rewrite (Hx Wx); [|reflexivity|lia]. cbn [N.eqb Pos.eqb].
+        rewrite (IHr Fr Wr); [reflexivity|discriminate|lia]. }
     destruct l as [|x r].
     + reflexivity.
     + cbn [app pval]. cbn [N.eqb Pos.eqb].
-      destruct (ser_head x) as (b & t & E & Hb). destruct (first_ok_not b Hb) as [N1 _].
+      assert (Wx : wf x = true) by (cbn [forallb] in W; apply andb_true_iff in W; tauto).
+      destruct (ser_head x Wx) as (b & t & E & N1 & _).
       assert (H0 : exists t', ser_elems (x :: r) ++ [93%N] ++ rest = b :: t').
       { destruct r; cbn [ser_elems]; rewrite E; cbn; eauto. }
       destruct H0 as (t' & E'). rewrite <- app_assoc. rewrite E'. rewrite N1. rewrite <- E'.
-      cbn [app]. rewrite (EL (x :: r) IH); [reflexivity|discriminate|lia].
-  - rewrite ser_obj. rewrite sz_obj in Hf.
-    assert (EL : forall l, Forall (fun p => forall rest fuel, follow_ok rest -> sz (snd p) < fuel ->
+      cbn [app]. rewrite (EL (x :: r) IH W); [reflexivity|discriminate|lia].
+  - rewrite ser_obj. rewrite sz_obj in Hf. cbn [wf] in W.
+    assert (EL : forall l, Forall (fun p => wf (snd p) = true -> forall rest fuel, follow_num rest -> sz (snd p) < fuel ->
                    pval fuel (ser (snd p) ++ rest) = Some (snd p, rest)) l ->
+                 forallb (fun p => wf (snd p)) l = true ->
                  l <> [] -> forall rest f, need_members l < f ->
                  pmembers f (ser_members l ++ 125%N :: rest) = Some (l, rest)).
-    { clear. induction l as [|[k x] r IHr]; intros F NE rest f Hn; [congruence|].
+    { clear. induction l as [|[k x] r IHr]; intros F W NE rest f Hn; [congruence|].
       destruct f as [|f]; [lia|]. inversion F as [|? ? Hx Fr]; subst. cbn [need_members snd] in Hn. cbn [snd] in Hx.
+      cbn [forallb snd] in W. apply andb_true_iff in W. destruct W as [Wx Wr].
       rewrite ser_members_cons.
       destruct (pstr_ser_str k (58%N :: ser x ++
          match r with [] => 125%N :: rest | _ :: _ => 44%N :: ser_members r ++ 125%N :: rest end)) as (t & E & P).
       rewrite E. cbn [pmembers]. cbn [N.eqb Pos.eqb]. rewrite P. cbn [N.eqb Pos.eqb].
       destruct r as [|y r'].
-      - rewrite Hx; [|reflexivity|lia]. reflexivity.
-      - rewrite Hx; [|reflexivity|lia]. cbn [N.eqb Pos.eqb].
-        rewrite (IHr Fr); [reflexivity|discriminate|lia]. }
+      - rewrite (Hx Wx); [|reflexivity|lia]. reflexivity.
+      - rewrite (Hx Wx); [|reflexivity|lia]. cbn [N.eqb Pos.eqb].
+        rewrite (IHr Fr Wr); [reflexivity|discriminate|lia]. }
     destruct kv as [|[k x] r].
     + reflexivity.
     + cbn [app pval]. cbn [N.eqb Pos.eqb].
       assert (H0 : exists t', ser_members ((k, x) :: r) ++ [125%N] ++ rest = 34%N :: t').
       { destruct r; cbn [ser_members]; unfold ser_str; cbn; eauto. }
       destruct H0 as (t' & E'). rewrite <- app_assoc. rewrite E'. cbn [N.eqb Pos.eqb]. rewrite <- E'.
-      cbn [app]. rewrite (EL ((k, x) :: r) IH); [reflexivity|discriminate|lia].
+      cbn [app]. rewrite (EL ((k, x) :: r) IH W); [reflexivity|discriminate|lia].
 Qed.
 
 (* the default fuel of [de] is enough: every node writes at least one byte *)
-Lemma sz_le_len : forall v, sz v <= length (ser v).
+Lemma sz_le_len : forall v, wf v = true -> sz v <= length (ser v).
 Proof.
-  induction v as [| b | z | s | l IH | kv IH] using jv_ind'.
+  induction v as [| b | z | tok | s | l IH | kv IH] using jv_ind'; intro W.
   - cbn. lia.
   - destruct b; cbn; lia.
   - destruct (show_int_head z) as (b & t & E & _). cbn [ser sz]. rewrite E. cbn. lia.
+  - cbn [wf] in W. destruct (float_tok_head tok W) as (b & t & E & _). cbn [ser sz]. rewrite E. cbn. lia.
   - cbn. lia.
-  - rewrite ser_arr, sz_arr. cbn [length]. rewrite app_length. cbn [length].
+  - rewrite ser_arr, sz_arr. cbn [length]. rewrite app_length. cbn [length]. cbn [wf] in W.
     assert (need_elems l <= length (ser_elems l) + 1).
     { induction IH as [|x r Hx Hr IHr]; [cbn; lia|].
+      cbn [forallb] in W. apply andb_true_iff in W. destruct W as [Wx Wr]. specialize (Hx Wx). specialize (IHr Wr).
       change (need_elems (x :: r)) with (S (sz x + need_elems r)).
       destruct r as [|y r'].
       - cbn [ser_elems need_elems]. lia.
       - change (ser_elems (x :: y :: r')) with (ser x ++ 44%N :: ser_elems (y :: r')).
         rewrite app_length. cbn [length]. lia. }
     lia.
-  - rewrite ser_obj, sz_obj. cbn [length]. rewrite app_length. cbn [length].
+  - rewrite ser_obj, sz_obj. cbn [length]. rewrite app_length. cbn [length]. cbn [wf] in W.
     assert (need_members kv <= length (ser_members kv) + 1).
     { induction IH as [|[k x] r Hx Hr IHr]; [cbn; lia|]. cbn [snd] in Hx.
+      cbn [forallb snd] in W. apply andb_true_iff in W. destruct W as [Wx Wr]. specialize (Hx Wx). specialize (IHr Wr).
       change (need_members ((k, x) :: r)) with (S (sz x + need_members r)).
       destruct r as [|y r'].
       - cbn [ser_members need_members]. rewrite app_length. cbn [length]. lia.
@@ -291,8 +365,10 @@ Proof.
     lia.
 Qed.
 
-Theorem json_de_ser : forall v, de (ser v) = Some v.
+(* floats are carried as opaque number tokens: [wf] asks that every float token is a non-integer
+   number token (what a JSON writer prints for a float) *)
+Theorem json_de_ser : forall v, wf v = true -> de (ser v) = Some v.
 Proof.
-  intro v. unfold de. pose proof (pval_ser v [] (S (length (ser v))) I) as H.
-  rewrite List.app_nil_r in H. rewrite H; [reflexivity|]. pose proof (sz_le_len v). lia.
+  intros v W. unfold de. pose proof (pval_ser v W [] (S (length (ser v))) I) as H.
+  rewrite List.app_nil_r in H. rewrite H; [reflexivity|]. pose proof (sz_le_len v W). lia.
 Qed.
